@@ -7,9 +7,10 @@ and nobody touched the temp file, which every operation of the library but `clea
 exactly what it would have done straight away, on top of the state it finds.
 -/
 import Cacache.Lemmas.HeldWriter
+import Cacache.Lemmas.HeldWriter2
 
 namespace Cacache.C02x
-open Prog Json Refine CacheRefine ListRefine HeldWriter
+open Prog Json Refine CacheRefine ListRefine HeldWriter HeldWriter2
 
 variable (cfg : Cfg) (cache : Path)
 
@@ -78,5 +79,76 @@ theorem held_across_ops (env env' : Env) (fl : Flavour) (k : Bytes) (o : WriteOp
     Healthy cfg cache (run env' (wcommit cfg w) (xRunOps cfg cache ops fs1).2).2.1 ∧
     (run env' (wcommit cfg w) (xRunOps cfg cache ops fs1).2).2.1.get w.tmp = none :=
   HeldWriter.held_across_ops cfg cache env env' fl k o chunks fs0 fs1 w h0 hl hw hopen hfs1 ops hnc hops
+
+
+/-! ### From `Lemmas/HeldWriter2.lean`: by-address writers, a `clear` in between, two writers of one key -/
+
+/-- **The commit of a held BY-ADDRESS writer**: from any healthy `fs2` with the temp file untouched the commit answers
+the integrity (or the size error for a wrong declared size), the abstract store gains exactly the address of the bytes,
+the abstract index is unchanged, healthy, temp file gone, the rest of `cache/tmp` as it was. -/
+theorem held_commit_refines_unkeyed (env env' : Env) (fl : Flavour) (o : WriteOpts)
+    (chunks : List Bytes) (fs0 fs1 fs2 : FS) (w : Writer)
+    (h0 : Healthy cfg cache fs0) (hl : HexLen cfg)
+    (hopen : (run env (heldOpen cfg cache fl none o chunks) fs0).1 = .ok w)
+    (hfs1 : (run env (heldOpen cfg cache fl none o chunks) fs0).2.1 = fs1)
+    (h2 : Healthy cfg cache fs2)
+    (hkeep : fs2.get w.tmp = fs1.get w.tmp) :
+    (run env' (wcommit cfg w) fs2).1 = putAnswer cfg o chunks.flatten ∧
+    absStore cache (run env' (wcommit cfg w) fs2).2.1 =
+      (absStore cache fs2).set (o.algo.getD .sha256)
+        (Bytes.hex (cfg.H (o.algo.getD .sha256) chunks.flatten)) (some chunks.flatten) ∧
+    absIndex cfg cache (run env' (wcommit cfg w) fs2).2.1 = absIndex cfg cache fs2 ∧
+    Healthy cfg cache (run env' (wcommit cfg w) fs2).2.1 ∧
+    (run env' (wcommit cfg w) fs2).2.1.get w.tmp = none ∧
+    ∀ n, (cache ++ [dTmp]) ++ [n] ≠ w.tmp →
+      (run env' (wcommit cfg w) fs2).2.1.get ((cache ++ [dTmp]) ++ [n]) = fs2.get ((cache ++ [dTmp]) ++ [n]) :=
+  HeldWriter2.held_commit_refines_unkeyed cfg cache env env' fl o chunks fs0 fs1 fs2 w h0 hl hopen hfs1 h2 hkeep
+
+/-- **A writer that was open when the cache was cleared cannot bring anything back.**  Open and feed a writer (keyed or
+by address), `clear` the cache, commit: the commit answers exactly the I/O not-found error (the temp file is gone), and
+afterwards - in every environment, for every key, algorithm and data - lookups find nothing, reads answer not-found,
+`exists` answers false.  (The failed commit may have re-created empty directories of the content area:
+`HeldWriter2.held_commit_after_clear` says exactly which.) -/
+theorem nothing_comes_back (env envc env' : Env) (fl : Flavour) (key : Option Bytes) (o : WriteOpts)
+    (chunks : List Bytes) (fs0 fs1 fs2 : FS) (w : Writer)
+    (h0 : XHealthy cfg cache fs0) (hl : HexLen cfg)
+    (hopen : (run env (heldOpen cfg cache fl key o chunks) fs0).1 = .ok w)
+    (hfs1 : (run env (heldOpen cfg cache fl key o chunks) fs0).2.1 = fs1)
+    (hfs2 : (run envc (clear cache) fs1).2.1 = fs2) :
+    (run env' (wcommit cfg w) fs2).1 = .error (.io .notFound) ∧
+    (∀ e k, (run e (find cfg cache k) (run env' (wcommit cfg w) fs2).2.1).1 = .ok none) ∧
+    (∀ e k, (run e (read cfg cache k) (run env' (wcommit cfg w) fs2).2.1).1 = .error .notFound) ∧
+    (∀ e a d, (run e (existsHash cache (Sri.compute cfg.H a d)) (run env' (wcommit cfg w) fs2).2.1).1 =
+      .ok false) ∧
+    (∀ e a d, (run e (readHash cfg cache (Sri.compute cfg.H a d)) (run env' (wcommit cfg w) fs2).2.1).1 =
+      .error (.io .notFound)) :=
+  ⟨(HeldWriter2.held_commit_after_clear cfg cache env envc env' fl key o chunks fs0 fs1 fs2 w h0 hl hopen hfs1 hfs2).2.1,
+   HeldWriter2.nothing_comes_back cfg cache env envc env' fl key o chunks fs0 fs1 fs2 w h0 hl hopen hfs1 hfs2⟩
+
+/-- **Two writers of ONE key, opened one after the other, committed in either order**: both commits answer their
+integrities, the key maps to the entry of the writer that committed LAST, other keys are as before, the store holds
+both contents, healthy, no temp file left (`HeldWriter2.TwoCommitted` spells this out). -/
+theorem held_two_writers (e1 e2 eA eB : Env) (fl1 fl2 : Flavour) (k : Bytes) (o1 o2 : WriteOpts)
+    (chunks1 chunks2 : List Bytes) (fs0 fs1 fs2 : FS) (w1 w2 : Writer)
+    (h0 : Healthy cfg cache fs0) (hl : HexLen cfg)
+    (hw1 : PutWF k o1 chunks1) (hw2 : PutWF k o2 chunks2)
+    (hz1 : o1.size = none ∨ o1.size = some chunks1.flatten.length)
+    (hz2 : o2.size = none ∨ o2.size = some chunks2.flatten.length)
+    (hopen1 : (run e1 (heldOpen cfg cache fl1 (some k) o1 chunks1) fs0).1 = .ok w1)
+    (hfs1 : (run e1 (heldOpen cfg cache fl1 (some k) o1 chunks1) fs0).2.1 = fs1)
+    (hopen2 : (run e2 (heldOpen cfg cache fl2 (some k) o2 chunks2) fs1).1 = .ok w2)
+    (hfs2 : (run e2 (heldOpen cfg cache fl2 (some k) o2 chunks2) fs1).2.1 = fs2) :
+    TwoCommitted cfg cache fs0
+      (run eB (wcommit cfg w1) (run eA (wcommit cfg w2) fs2).2.1).2.1 k eB o2 o1
+      chunks2.flatten chunks1.flatten
+      (run eA (wcommit cfg w2) fs2).1 (run eB (wcommit cfg w1) (run eA (wcommit cfg w2) fs2).2.1).1
+      w1.tmp w2.tmp ∧
+    TwoCommitted cfg cache fs0
+      (run eB (wcommit cfg w2) (run eA (wcommit cfg w1) fs2).2.1).2.1 k eB o1 o2
+      chunks1.flatten chunks2.flatten
+      (run eA (wcommit cfg w1) fs2).1 (run eB (wcommit cfg w2) (run eA (wcommit cfg w1) fs2).2.1).1
+      w1.tmp w2.tmp :=
+  HeldWriter2.held_two_writers cfg cache e1 e2 eA eB fl1 fl2 k o1 o2 chunks1 chunks2 fs0 fs1 fs2 w1 w2
+    h0 hl hw1 hw2 hz1 hz2 hopen1 hfs1 hopen2 hfs2
 
 end Cacache.C02x
